@@ -98,8 +98,11 @@ def miterTip (hw : α) (pivot n0 n1 : Pt α) : Pt α :=
 /-- `|d|` -/
 def miterAbsD (hw : α) (n0 n1 : Pt α) : α := Ops.sqrt (2 * (hw * hw) * (hw * hw) / miterDen hw n0 n1)
 
-/-- `t := |limit*halfWidth/d|` of the miter-clip branch -/
-def clipT (lim hw : α) (n0 n1 : Pt α) : α := lim * hw / miterAbsD hw n0 n1
+/-- the miter-clip fraction `t := (limit*hw*|d| - hw²)/(d² - hw²)`: along the bisector the offset corner is at
+`hw²/|d|` and the tip at `|d|`, the cut at `limit*hw` -/
+def clipT (lim hw : α) (n0 n1 : Pt α) : α :=
+  let D := miterAbsD hw n0 n1
+  (lim * hw * D - hw * hw) / (D * D - hw * hw)
 
 /-- `MiterJoiner{GapJoiner, Limit}.Join`; `gapBevel = true` is `MiterJoin`, `false` is `MiterClipJoin`.
 `rpos`/`lpos` are the pen positions of rhs and lhs (`rhs.Pos()`, `lhs.Pos()`). -/
@@ -294,7 +297,7 @@ def mkScene (lo hi low hiw : Int × Int) (inp : List (List RawPt)) (closed : Lis
 
 /-- Stroke: `dist < lo ⇒ filled` (unless flag bit 0), `dist > hi ⇒ not filled` (unless flag bit 1).
 Flag bit 2 only names the class of a failure: the point is within `√(1+limit²)·w/2` of the vertex of a
-clipping join (where the clipped miter of the library ends, beyond the `limit·w/2` of the property). -/
+clipping join (regression class of the miter-clip fraction repaired in /repo 95736b2). -/
 def checkStroke (s : Scene) (flags : List Nat) : String := Id.run do
   let mut nearOk := 0
   let mut farOk := 0
